@@ -35,20 +35,27 @@ def skeleton(d):
 
 def make_build(widths):
     def build(part):
-        ca, cb, depth_a = part
+        ca, cb, depth_a = part[:3]
+        depth_b = part[3] if len(part) > 3 else 1
+        inner = part[4] if len(part) > 4 else None        # the inner constructor of the deep side(s), fixed
         st = State()
         bs = [z3.BitVec('t%d' % i, 8) for i in range(2 * DESC)]
         for i, b in enumerate(bs):
             st.mem[BUF + i] = b
-        for o, c, deep in ((0, ca, depth_a == 2), (DESC, cb, False)):
+        for o, c, deep in ((0, ca, depth_a == 2), (DESC, cb, depth_b == 2)):
             st.pc.append(bs[o] == c)
             if not deep:
                 st.pc.append(bs[o + 1] == 0)
+            elif inner is not None:
+                st.pc.append(bs[o + 1] == inner)
             else:
                 st.pc.append(z3.ULT(bs[o + 1], len(CONS)))
             st.pc.append(z3.ULT(bs[o + 2], len(LEAVES)))
             st.pc.append(z3.Or(*[bs[o + 3] == x for x in widths]))
-            st.pc.append(z3.ULE(bs[o + 4], 1)); st.pc.append(z3.ULT(bs[o + 5], 3)); st.pc.append(z3.ULT(bs[o + 6], 2))
+            st.pc.append(z3.ULE(bs[o + 4], 1)); st.pc.append(z3.ULT(bs[o + 5], 3))
+            # uids: 0/1 and 10/11 (a nested nominal type gets its parent's uid + 10, so 10/11 let a root type BE the
+            # nested type of the other description: `Seconds` against `distinct Seconds`)
+            st.pc.append(z3.Or(*[bs[o + 6] == u for u in ((0, 1, 10, 11) if (depth_a == 2 or depth_b == 2) else (0, 1))]))
         return st, [BUF], {'desc': bs}
     return build
 
@@ -101,7 +108,7 @@ def run_laws(chk, prop, mask, tier, seed, parts=None):
             sample = [(0, 0)] + rnd.sample([p for p in allpairs if p != (0, 0)], 35)
             parts = [(a, b, 1) for a, b in sample]
     else:
-        parts = [(a, b, 1) for a, b in parts]
+        parts = [tuple(p) if len(p) > 2 else (p[0], p[1], 1) for p in parts]
     job = Job(ENTRY, make_build(widths), make_judge(mask), max_steps=3_000_000)
     tot = explore(chk, mod, job, parts, nproc=16)
     seen = set()
@@ -136,7 +143,7 @@ def run_laws(chk, prop, mask, tier, seed, parts=None):
     chk.cov['exhaustive'] = True
     chk.cov['explanation'] = 'states = finished paths of harness_laws over two symbolic type descriptions; the executor\'s forks enumerate the type skeletons, widths/mutability/sizes/uids stay symbolic'
     chk.bounds.update({'constructor_depth': '<= 1 for every pair; 2 on the A side for a fixed list of 8 pairs' if thorough else '<= 1 (seeded sample of 36 of the 121 constructor pairs; thorough covers all)', 'constructors': CONS[1:], 'leaves': LEAVES, 'widths': list(widths), 'constructor_pairs': len(parts),
-                       'array_sizes': '< 3', 'uids': '< 2', 'outside_claim': ['enum/variant types here (separate harness_variants)', 'File and function-definition types', 'deeper nesting']})
+                       'array_sizes': '< 3', 'uids': '0, 1 (and 10, 11 where one side has depth 2: the nested type of one side can be the root of the other)', 'outside_claim': ['enum/variant types here (separate harness_variants)', 'File and function-definition types', 'deeper nesting']})
     chk.assumptions.extend(['internment::Intern is replaced by a leaked-box model compared by content (shims/internment): Intern::new(a) == Intern::new(b) <=> a == b',
                             'validity precondition in llharness/src/ty_laws.rs build(): nil/always-jumps/unknown only stand alone, void only alone or as optional/error-union payload, a uid identifies one type',
                             'rustc 1.88 LLVM IR at opt-level 1; llsym validated against native runs'])
